@@ -55,6 +55,7 @@ ASSUMPTIONS = [
     "for reset_index=True the root is the first row (the documented layout)",
 ]
 REQUIRED = ["grammar_reads", "rows_compared", "comments_compared", "ignored_field_warnings",
+            "texts_with_the_writers_column_banner",
             "extra_cols_compared", "faults_injected", "faults_raised", "bytes_faults_injected",
             "sorted_reads", "population_reads", "src_text", "src_bytes", "src_path",
             "entry_read_swc", "entry_from_swc", "ids_beyond_2_53", "lone_cr_line_ends", "root_without_smallest_id",
@@ -156,6 +157,12 @@ def gen_doc(seed: int, *, arbitrary_ids: bool = False, max_rows: int = 40, chars
             "tab\there"] + [{"ascii": "cafe um", "latin-1": "café µm ±"}.get(charset, "café 神経 µm")]
     if rng.random() < 0.5:
         lines.append(("comment", "# header " + str(seed), " header " + str(seed)))
+    if rng.random() < 0.4:
+        # the column banner the library's own writer puts before the rows (the reader documents
+        # dropping that line; everything else about the text is read as for any other file)
+        extra_names = [f"e{j}" for j in range(int(rng.integers(0, 3)))] if rng.random() < 0.4 else []
+        lines.append(("banner", "# " + " ".join(["id", "type", "x", "y", "z", "r", "pid"]
+                                                + extra_names), None))
     for k in order:
         if rng.random() < 0.15:
             c = str(rng.choice(pool))
@@ -287,6 +294,8 @@ def check_grammar(ctx, case, tmp):
     if cr:
         ctx.count("lone_cr_line_ends")
     text = render(doc)
+    if any(k_ == "banner" for k_, _, _ in doc["lines"]):
+        ctx.count("texts_with_the_writers_column_banner")
     src = _source(o["kind"], text, o["encoding"], tmp)
     ctx.count("src_" + o["kind"])
     ctx.count("entry_" + o["entry"])
